@@ -310,6 +310,14 @@ def write_evidence(prop, tier, seed, eng, funcs, n_obl, n_dis, by_backend, solve
     from .contracts import CONTRACTS
     meta = PROP_META.get(prop, {})
     trusted = list(TRUSTED_BASE) + meta.get('trusted', [])
+    for qn, c in CONTRACTS.items():
+        cprops = set(c.props)
+        for nm in list(c.ensures) + list(c.raises):
+            cprops.update(c.clause_props(nm))
+        if prop in cprops:
+            for a in c.extra.get('assumes', []):
+                if a not in trusted:
+                    trusted.append(a)
     proved_all = n_obl > 0 and n_dis == n_obl and not undecided and not errors
     level = PROP_LEVEL.get(prop, 'proof')
     bl = list(bounded_units)
@@ -378,7 +386,7 @@ ASSUMPTIONS = [
 
 PROP_META = {}
 XCHECK = {}
-PROP_LEVEL = {'C07': 'other', 'C08': 'other', 'C15': 'other', 'C18': 'other', 'C20': 'other'}
+PROP_LEVEL = {'C07': 'other', 'C08': 'other', 'C15': 'other', 'C20': 'other'}
 
 SCENARIO_UNITS = {
     'C13': [('consumer', 400, 'Consumer.stop()/shutdown() (500+ symbolic paths) and their interleavings with replies, timers and processor results')],
@@ -392,7 +400,7 @@ SCENARIO_UNITS = {
     'C08': [('metadata_merge', 300, '_merge_topic_metadata / reset_topic_metadata (dict-of-dict code with KeyError control flow)')],
     'C06': [('brokerclient', 300, 'close()/cancel/response interleavings with re-entrant cancellation from callbacks')],
     'C15': [('assignment', 300, '_round_robin_assignment (sets, itertools.cycle, nested defaultdict) over member-order permutations')],
-    'C18': [('partitioner', 300, 'pure_murmur2 against an independent 32-bit transcription of the Java function; round-robin fairness with list changes')],
+    'C18': [('partitioner', 300, 'round-robin fairness counted over k*n-selection windows with in-place and replaced lists (the per-step cycle contract is proved; the window count is its arithmetic consequence, not machine-checked); pure_murmur2 re-compared natively with the Java transcription')],
     'C16': [('group', 400, 'ConsumerGroup consumer creation/teardown and requests after stop across the @inlineCallbacks join sequence')],
     'C17': [('group', 400, 'never-idle oracle over generated fault sequences')],
 }
